@@ -126,10 +126,10 @@ def check_c50(ctx):
                        "request parser, temp tree with a secret outside the root). distinct = distinct inputs.")
     runs = []
     if q:
-        runs.append(("full2", static_defs(2, FULL, ["GET", "HEAD", "POST"], ["", "index.html"], [True], ["", "gzip"]), None))
-        runs.append(("core4", static_defs(4, CORE8, ["GET"], ["", "index.html"], [True], ["gzip"]), None))
+        runs.append(("full2", static_defs(2, FULL, ["GET", "HEAD", "POST"], ["", "index.html"], [True, False], ["", "gzip"]), None))
+        runs.append(("core4", static_defs(4, CORE, ["GET"], ["", "index.html"], [True], ["gzip"]), None))
         runs.append(("given", static_defs(0, CORE, ["GET"], ["", "sub/b.txt"], [True, False], ["gzip"]),
-                     given_paths(ctx, 1000, 3, 7)))
+                     given_paths(ctx, 2000, 3, 7)))
     else:
         runs.append(("full3", static_defs(3, FULL, ["GET"], ["", "index.html"], [True], ["gzip"]), None))
         runs.append(("full2", static_defs(2, FULL, ["GET", "HEAD", "POST", "PUT", "DELETE", "OPTIONS"],
@@ -160,10 +160,8 @@ def check_c50(ctx):
 # ----------------------------------------------------------------------------- C51
 
 KEYSETS = ["oct2", "oct-hs256", "rsa", "rsa-rs256", "ec-es256", "mixed"]
-TIMES_Q = ["none", "exp-future", "exp-past", "nbf-future"]
 TIMES_T = ["none", "exp-future", "exp-past", "nbf-past", "nbf-future", "exp-future-nbf-future",
            "exp-future-nbf-past", "iat-future"]
-HDRS_Q = ["bearer", "absent", "lower", "no-token"]
 HDRS_T = ["bearer", "absent", "lower", "two-spaces", "basic-scheme", "no-token", "extra-part", "two-segments"]
 SCHEMES = ["basic", "jwt", "slink", "blockip", "blockrule", "authreq"]
 
@@ -181,7 +179,7 @@ def check_c51(ctx):
                        "tokens signed with stdlib crypto, signed links, blocklists and a loopback auth service and "
                        "drives the handlers the modules registered. distinct = distinct inputs.")
     d = {"SCHEMES": tla_set(SCHEMES), "KEYSETS": tla_set(KEYSETS),
-         "TIMES": tla_set(TIMES_Q if q else TIMES_T), "HDRS": tla_set(HDRS_Q if q else HDRS_T),
+         "TIMES": tla_set(TIMES_T), "HDRS": tla_set(HDRS_T),
          "MAXRULES": 2 if q else 3}
     ctx.cov["constants"]["Access"] = d
     hdr, cases = tlc_cases(ctx, "GenAccess", "GenMC_Access.cfg", d, timeout=2400, label="access")
@@ -222,7 +220,7 @@ def check_c54(ctx):
     allr = ["noprod", "nocond", "gzip", "brotli"]
     allce = ["", "identity", "gzip", "br", "deflate"]
     if q:
-        decide = compress_defs(2, ["gzip", "br", "identity", "*", "GZIP"], ["", "0", "0.5"], ["t", "s"], True,
+        decide = compress_defs(2, ["gzip", "br", "identity", "*", "x-gzip", "GZIP"], ["", "0", "0.5"], ["t", "s"], True,
                                allr, allce, [True], ["GET200"], ["small"], [512], ["lo"])
         shape = compress_defs(1, ["gzip", "br"], [""], ["t"], True, ["gzip", "brotli"], ["", "identity"],
                               [True, False], ["GET200", "HEAD200", "204", "304"],
